@@ -1,6 +1,7 @@
 package harness
 
 import (
+	"unicode/utf8"
 	"fmt"
 	"sort"
 
@@ -185,7 +186,11 @@ func exportImport(ex *Exec) []Violation {
 	}
 	bz2, err := cdc.MarshalJSON(&gs2)
 	if err != nil || string(bz2) != string(bz) {
-		fail("json_roundtrip", "genesis changes in a JSON round trip (err %v)", err)
+		sig := "json_roundtrip"
+		if invalidUTF8Text(post) {
+			sig = "json_roundtrip:state-has-invalid-utf8-text"
+		}
+		fail(sig, "genesis changes in a JSON round trip (err %v)", err)
 		return vs
 	}
 	// 3. import into a fresh chain, export again
@@ -223,6 +228,16 @@ func exportImport(ex *Exec) []Violation {
 			fail("import_content", "binding %s differs after import", bk)
 		}
 	}
+	for _, dk := range sortedKeys(post.Defs) {
+		a, b := post.Defs[dk], fs.Defs[dk]
+		if string(cdc.MustMarshalBinaryBare(&a)) != string(cdc.MustMarshalBinaryBare(&b)) {
+			sig := "import_content"
+			if invalidUTF8Text(post) {
+				sig = "import_content:state-has-invalid-utf8-text"
+			}
+			fail(sig, "definition %q differs after import: %q vs %q", dk, a.Description, b.Description)
+		}
+	}
 	for _, cid := range sortedKeys(post.Ctxs) {
 		a, b := post.Ctxs[cid], fs.Ctxs[cid]
 		if string(cdc.MustMarshalBinaryBare(&a)) != string(cdc.MustMarshalBinaryBare(&b)) {
@@ -239,6 +254,21 @@ func exportImport(ex *Exec) []Violation {
 
 // non20ByteProvider: the exported content carries a provider address that is not 20 bytes long
 // (binding providers and context provider lists are written to JSON as bech32 text)
+// invalidUTF8Text: the state holds a definition with a free-text field that is not valid UTF-8
+func invalidUTF8Text(s *Snapshot) bool {
+	for _, d := range s.Defs {
+		if !utf8.ValidString(d.Description) || !utf8.ValidString(d.AuthorDescription) {
+			return true
+		}
+		for _, tg := range d.Tags {
+			if !utf8.ValidString(tg) {
+				return true
+			}
+		}
+	}
+	return false
+}
+
 func non20ByteProvider(s *Snapshot) bool {
 	for _, b := range s.Binds {
 		if len(b.Provider) != 20 {
